@@ -267,7 +267,7 @@ Proof.
   pose proof (register_oneofs_acyc m _ _ _ _ _ HA Ereg) as HAa.
   destruct (fields_loop D rec m sta exs (m_fields m)) as [[[stb exs2] ps2]| | |] eqn:Ef; cbn [obind] in H; try discriminate.
   pose proof (fields_loop_acyc rec HrecA m _ _ _ _ _ _ HAa Ef) as HAb.
-  destruct (existsb ex_pending exs2); [discriminate|]. inversion H; subst st1 ps.
+  destruct (existsb ex_pending exs2); [discriminate|]. destruct (negb (exs_names_ok exs2)); [discriminate|]. inversion H; subst st1 ps.
   apply finish_oneofs_acyc. exact HAb.
 Qed.
 
